@@ -45,7 +45,7 @@ class TmpCwd:
 
 
 # absolute precision of each text format (half a unit of the last printed digit, in the file's own length unit / fractional)
-FORMAT_TOL = {"abacus": 2e-6, "castep": 1e-9, "wien2k": 1e-7, "fleur": 1e-9, "lammps": 1e-9}
+FORMAT_TOL = {"abacus": 2e-6, "castep": 1e-9, "wien2k": 1e-6, "fleur": 1e-9, "lammps": 1e-9}
 
 
 def same_crystal(a, b, tol=1e-7, allow_grouping=False):
@@ -78,7 +78,7 @@ def same_crystal(a, b, tol=1e-7, allow_grouping=False):
 @st.composite
 def cell_specs(draw, tier):
     return {"key": draw(keys), "calc": draw(st.sampled_from(NOAUX + TEMPL + ["wien2k", "fleur", "crystal"])), "natom": draw(st.integers(1, 6)),
-            "nspecies": draw(st.integers(1, 3)), "interleaved": draw(st.booleans()), "outside": draw(st.booleans()),
+            "nspecies": draw(st.integers(1, 3)), "interleaved": draw(st.booleans()), "outside": draw(st.sampled_from([False, False, True, "edge"])),
             "size": draw(st.sampled_from([4.0, 4.0, 12.0, 60.0, 150.0])), "shear": draw(st.sampled_from([0.0, 0.15, 0.4])),
             "disp": draw(st.booleans())}
 
@@ -95,7 +95,12 @@ def make_cell(spec):
         L = np.eye(3) * spec["size"]
     n = spec["natom"]
     pos = rng.random((n, 3))
-    if spec["outside"]:
+    if spec["outside"] == "edge":
+        # atoms next to a cell face that a small displacement carries across it (1.0003, -0.0002)
+        pos = np.where(rng.random((n, 3)) < 0.5, 1.0 + rng.uniform(1e-6, 3e-3, size=(n, 3)), -rng.uniform(1e-6, 3e-3, size=(n, 3)))
+        pos[:, 0] += np.linspace(0.0, 0.5, n, endpoint=False)  # keep atoms apart
+        pos[:, 0] = np.where(pos[:, 0] > 1.2, pos[:, 0] - 1.0, pos[:, 0])
+    elif spec["outside"]:
         pos = pos + rng.integers(-2, 3, size=(n, 3))
     pool = ["Na", "Cl", "O"][: spec["nspecies"]]
     if spec["interleaved"]:
@@ -170,10 +175,11 @@ def run_structure(spec):
 
     calc = spec["calc"]
     cell = make_cell(spec)
-    classes = ["calc:" + calc, "size:%g" % spec["size"], "interleaved" if spec["interleaved"] else "grouped", "outside" if spec["outside"] else "inside"]
+    classes = ["calc:" + calc, "size:%g" % spec["size"], "interleaved" if spec["interleaved"] else "grouped", ("outside_edge" if spec["outside"] == "edge" else "outside") if spec["outside"] else "inside"]
     with TmpCwd():
         try:
-            if calc in T.SAMPLES and calc not in T.TEMPLATES and calc not in NOAUX:
+            generated_w2k = calc == "wien2k" and spec["key"] % 4 != 0
+            if calc in T.SAMPLES and calc not in T.TEMPLATES and calc not in NOAUX and not generated_w2k:
                 # repository sample input -> read -> write -> read
                 f = T.SAMPLES[calc][spec["key"] % len(T.SAMPLES[calc])]
                 c1, info = read_crystal_structure(f, interface_mode=calc)
@@ -202,6 +208,10 @@ def run_structure(spec):
                 return Out(ok=True, nontrivial=True, classes=classes + ["sample"])
             info = None
             c_in = cell
+            if generated_w2k:
+                # the auxiliary data a struct file carries per atom (radial mesh points, R0, RMT), as the reader would return them
+                info = ("generated.struct", [781] * len(cell), [1e-4] * len(cell), [2.0] * len(cell))
+                classes.append("generated_cell")
             if calc in T.TEMPLATES:
                 open("template", "w").write(T.TEMPLATES[calc](cell))
                 c1, info = read_crystal_structure("template", interface_mode=calc)
